@@ -183,10 +183,16 @@ class ReadMerger(ReadMergerBase):
                     superreads[r][position][allele] += quality
 
         merged_reads = ReadSet()
-        readn = 0
         for id in range(len(reads)):
-            read = Read(f"read{readn}")
-            readn += 1
+            # A merged read stands for reads of one sample from one input file: keep the name,
+            # source and sample of the read that represents it
+            original = readset[id]
+            read = Read(
+                original.name,
+                original.mapqs[0] if original.mapqs else 0,
+                original.source_id,
+                original.sample_id,
+            )
             if id in representative:
                 if id == representative[id]:
                     for position in sorted(superreads[id]):
